@@ -388,7 +388,16 @@ def check_poll_next(L, tier, log, samples):
 
     def c_decode(ex, st, key, argv, dest_ty, raw):
         def none(ex, st, a):
-            st.world.setdefault("decodes", []).append("none")
+            w = st.world
+            nreads = len(w.get("reads", []))
+            if w.get("reads_at_last_none") == nreads:
+                # second 'nothing decodable yet' in a row without asking the transport in between: buffer and decoder are
+                # unchanged, so the real (deterministic) decoder answers the same for ever - the poll never returns
+                st.effects.append(("spin",))
+                e = ex.make_enum(FSE, "Proto", [Obj("frame::FrameProtocolError")])
+                return ex.make_enum(dest_ty, "Err", [e])        # leave the loop; the path is judged by the 'spin' effect
+            w["reads_at_last_none"] = nreads
+            w.setdefault("decodes", []).append("none")
             return ex.make_enum(dest_ty, "Ok", [ex.make_enum("Option<Frame>", "None")])
 
         def frame(kind):
@@ -413,11 +422,13 @@ def check_poll_next(L, tier, log, samples):
         return [Case(None, none), Case(z3.BoolVal(True), err)] + [Case(z3.BoolVal(True), frame(k)) for k in ("Data", "Headers", "Goaway", "WebTransportStream")]
 
     def c_has_rem(ex, st, key, argv, dest_ty, raw):
-        b = z3.Bool(E.fresh("bytes_left"))
-
+        # what is buffered changes only when the transport delivers data: one symbolic byte count per number of data reads
         def ap(ex, st, a):
+            n = len([r for r in st.world.get("reads", []) if r == "data"])
+            cnt = z3.BitVec(f"buffered_after_{n}_reads", 64)
+            b = cnt != 0
             st.world["bytes_left"] = b
-            return b
+            return cnt if key.endswith("::remaining") else b
         return [Case(None, ap)]
     con = [
         (r"^BufRecvStream::is_eos$", c_is_eos),
@@ -453,6 +464,11 @@ def check_poll_next(L, tier, log, samples):
         ok_none = ok is not None and ok.discr.as_long() == 0
         te = s.world.get("transport_error")
         info = {"transport": reads, "decoder": decs, "returns": "Pending" if is_pending else ("Err" if is_err else ("None" if ok_none else "frame"))}
+        if any(e[0] == "spin" for e in s.effects):
+            viols.append({"key": "c06.poll_next.spins_without_reading",
+                          "what": "poll_next goes round its loop again after the decoder said 'not enough bytes yet' WITHOUT asking the transport in between: "
+                                  "nothing can change, the call never returns (late bytes, FIN, RESET and connection close are never seen)", "model": info})
+            continue
         if te is not None:
             same = (is_err and z3.is_bv_value(err.discr) and ex.enums.name_of(FSE, err.discr.as_long()) == "Quic"
                     and E.get_field(err, ("Quic", 0)) is not None
@@ -693,6 +709,8 @@ _replay_three = replay_args
 
 
 def replay_args(v):
+    if v["key"] == "c06.poll_next.spins_without_reading":
+        return ("c06_poll_next_spin", [])
     if v["key"].startswith("c07.poll_read."):
         code = v.get("model", {}).get("reset_code")
         return ("c07_reset_inside_frame", [str(code)] if code is not None else [])
